@@ -182,6 +182,13 @@ def _calibration(ctx, N, cls):
         if ok and vname in ("int", "numpy integer"):
             ok = N.nf(pushed[0].term) == N.nf(init_v.term)
         ctx.ob("R-INDEXSPACE", f"the initial pick is stored in slot 0 and is the point the tables are initialised from [{vname}]", ok, f"pushed {[repr(p_.term)[:80] if p_ is not None else None for p_ in pushed]} ; selected_idx_ = {None if sel is None else repr(sel.term)[:120]}", site, vname)
+        if vname == "random" and sel is not None:
+            # the random first pick is one of the samples: a single randint over the number of samples
+            from ..apitable import dim_term as _dim_term
+
+            draws = [x for x in tq.walk_all(sel.term) if x.op == "rng" and x.args[1] == "randint"]
+            okb = bool(draws) and all(x.args[2] and x.args[2][0] == _dim_term(Dim.of("N")) for x in draws)
+            ctx.ob("R-INDEXSPACE", "the random initial pick is drawn among the samples (randint over the number of samples)", okb, f"selected_idx_ = {repr(sel.term)[:200]}", site, vname)
     # calibrated switching point together with a random first pick: the pick is drawn from a stream
     # that the timing trials have not advanced
     Ir = ctx.interp(stubs={"VoronoiFPS._update_post_selection": noop}, assume=protocols.assume_default)
@@ -202,7 +209,7 @@ def _calibration(ctx, N, cls):
     os_ = ctx.bare_object(Is, ss, cls, stale)
     ctx.call_method(Is, ss, os_, "_init_greedy_search", X, y, integer("S"))
     hs = ss.heap[os_.obj.id]
-    from .. import tq
+
 
     left = sorted(k for k in ("norms_", "hausdorff_", "hausdorff_at_select_", "vlocation_of_idx", "dSL_", "X_selected_", "selected_idx_") if k in hs and any(x.op == "sym" and str(x.args[0]).startswith("stale_") for x in tq.walk_all(hs[k].term)))
     ctx.ob("R-PADPAIR", "a refit rebuilds norms, distance tables and cell bookkeeping from the new data", not left, f"still holding values of the previous fit: {left}", site)
